@@ -43,6 +43,7 @@ type c19Case struct {
 	VarSeed  uint64      `json:"variant_seed"`
 	Damage   []c19Damage `json:"damaged_blocks,omitempty"`
 	How      string      `json:"how"`
+	lean     *c19Lean    // set when the case also goes to the Lean model (c19lean.go)
 }
 
 const c19How = "replay: open stor.Stor with history.opts, run c19Run(history) (ops derive from history_seed), settle (VerifWaitIdle until storage holds exactly the live files), Close; apply the manifest variant and the listed byte flips to the files; leveldb.Recover(stor, opts)"
@@ -297,6 +298,7 @@ func runC19(c *Ctx) {
 	defer crWorkerCheckpoint(c)()
 	c.Res.Rule = "settled DBs from random histories (150-400 puts/deletes/batches/large batches/CompactRange/reopen over 20-70 keys incl. the empty key and 0x00/0xff runs; tiny buffers so that several levels exist; the last writes stay in the journal; five comparers; bloom filter on/off; snappy on/off), closed once storage holds exactly the live files. Part A: manifest deleted / CURRENT cleared / manifest truncated at a random offset / manifest replaced by garbage, then leveldb.Recover: must succeed, full scan and every Get equal the plain map, then the DB is used (writes, CompactRange, Close) and reopened with Open with the expected contents. Part B: additionally 1-3 data blocks of live tables get one byte flipped (block boundaries from table.Reader.OffsetOf): Recover must succeed; every returned pair was written for that key at some time; every key whose newest version (value or tombstone, anywhere in the DB) lies outside the damaged blocks is returned with exactly that version; Get agrees with the scan. One evaluation = one recovered image; non-trivial = the DB had >= 2 tables and deletions (part B: at least one entry was in a damaged block); distinct by (history seed, variant, damage)."
 	once := &crSigOnce{}
+	c19LeanLeft = int64(c.Scale(300, 3000))
 	n := c.Scale(4000, 120000)
 	par := runtime.GOMAXPROCS(0)
 	if par > 16 {
@@ -356,6 +358,9 @@ func c19One(c *Ctx, once *crSigOnce, r *rng.R, i int) {
 		c19ApplyManifest(img, d, cs, vr)
 		c.Res.Count("variant", "A:"+v)
 		c.Res.Eval(fmt.Sprintf("A/%d/%s/%d", h.Seed, v, cs.Cut), rich)
+		if c19WantLean() {
+			cs.lean = &c19Lean{pristine: img.Clone()}
+		}
 		c19Recover(c, once, d, img, cs, nil, vr)
 	}
 	// ---- part B: damaged data blocks --------------------------------------------------------------
@@ -383,6 +388,7 @@ func c19One(c *Ctx, once *crSigOnce, r *rng.R, i int) {
 	type tinfo struct {
 		fd      storage.FileDesc
 		data    []byte
+		ents    []leveldb.VerifEntry
 		vs      []*c19Ver
 		blockOf []int64
 		starts  []int64
@@ -397,7 +403,7 @@ func c19One(c *Ctx, once *crSigOnce, r *rng.R, i int) {
 			c.Res.Note("table %d of history %d unreadable before damage: %v", t.Num, h.Seed, err)
 			return
 		}
-		ti := &tinfo{fd: fd, data: data, blockOf: blockOf, starts: starts}
+		ti := &tinfo{fd: fd, data: data, ents: ents, blockOf: blockOf, starts: starts}
 		for _, e := range ents {
 			ti.vs = append(ti.vs, addVer(e, crFdName(fd)))
 		}
@@ -428,6 +434,23 @@ func c19One(c *Ctx, once *crSigOnce, r *rng.R, i int) {
 	c.Res.Count("variant", "B:"+cs.Manifest)
 	c.Res.Count("damaged_blocks", fmt.Sprintf("%d", nd))
 	c.Res.Eval(fmt.Sprintf("B/%d/%v", h.Seed, cs.Damage), lostEntries > 0)
+	if c19WantLean() {
+		cs.lean = &c19Lean{pristine: img.Clone(), surv: map[int64][]leveldb.VerifEntry{}}
+		for _, dm := range cs.Damage {
+			for _, ti := range tis {
+				if ti.fd.Num != dm.Table {
+					continue
+				}
+				keep := []leveldb.VerifEntry{}
+				for k, e := range ti.ents {
+					if ti.vs[k] != nil && !ti.vs[k].lost {
+						keep = append(keep, e)
+					}
+				}
+				cs.lean.surv[ti.fd.Num] = keep
+			}
+		}
+	}
 	c19Recover(c, once, d, img, cs, vers, vr)
 }
 
@@ -513,6 +536,28 @@ func c19Recover(c *Ctx, once *crSigOnce, d *c19DB, img *stor.Stor, cs *c19Case, 
 	if err != nil {
 		once.report(c, d19("scan-error"), fmt.Sprintf("scan after Recover failed: %v", err), cs)
 		return
+	}
+	if cs.lean != nil {
+		dbg := ""
+		if os.Getenv("VERIF_C19_LEANDUMP") != "" {
+			ks := []string{}
+			for k := range got {
+				ks = append(ks, k)
+			}
+			sort.Strings(ks)
+			dbg = "ok " + part
+			for _, k := range ks {
+				v := got[k]
+				if len(v) > 12 {
+					v = v[:12]
+				}
+				dbg += " " + gen.Hex([]byte(k)) + "=" + gen.Hex([]byte(v))
+			}
+		}
+		if c19EmitRebuild(c, cs.lean, d.o, cs.Hist.Opts.Cmp, "ok "+crDigest(got), dbg) {
+			c.Res.Count("lean", part+":images")
+		}
+		cs.lean = nil
 	}
 	// expected contents
 	if vers == nil {
